@@ -46,6 +46,7 @@ type c02sCase struct {
 	seed      int64
 	idx       int
 	cleanSent []string
+	sizeZero  bool
 	// results
 	emits []c02sEmit
 	viols []c01tViol
@@ -263,6 +264,13 @@ func (sc *c02sCase) run() {
 	forged := false
 	var muts []string
 	nmut := []int{0, 1, 1, 1, 2, 2, 3}[rng.Intn(7)]
+	if sc.sizeZero {
+		// regression for the size race (fixed by d144b66): SIZE 0 announced for a non-empty stream, the genuine
+		// MD5 line: must be refused (before the fix the acknowledger won in 2 of 3 runs: SUCC, empty file)
+		nmut = 0
+		annSize = 0
+		muts = append(muts, "size-zero")
+	}
 	encode := func(d []byte) []byte { return []byte("#MD5:" + trzsz.VerifEncodeBytes(d) + "\n") }
 	var lateForge bool // forge the digest to that of whatever the receiver is going to write
 	for m := 0; m < nmut; m++ {
@@ -433,7 +441,7 @@ func (sc *c02sCase) run() {
 		sc.violate("file-script:receiver-undecided", "the real receiver neither accepted nor refused a delivered line sequence within the deadline", desc)
 	}
 	if raced {
-		sc.violate("file-script:size-race", "the receiver (protocol >= 2) answered the MD5 line with SUCC although the stream is longer than the announced size: pipelineSendAck reports completion as soon as savedSteps equals the size, before pipelineSaveData's check at the end of the stream; the digest covers the whole stream, the file holds a prefix",
+		sc.violate("file-script:size-race", "the receiver (protocol >= 2) answered the MD5 line with SUCC although the stream is longer than the announced size (the race fixed by d144b66 is back: recvFileDataV2 must wait for pipelineSaveData's check at the end of the stream after pipelineSendAck reported completion); the digest covers the whole stream, the file holds a prefix",
 			desc+fmt.Sprintf(" stream=%d bytes", len(decoded)))
 	} else if accepted {
 		if !forged && !bytes.Equal(written, sc.content) {
@@ -676,6 +684,10 @@ func genFileScript(c *ctx) {
 		}
 		sc.fcfg = trzsz.VerifFileCfg{Protocol: sc.g.proto, Binary: sc.g.binary, Compress: sc.g.compress, Table: sc.g.table, TimeoutSec: 1}
 		size := []int{0, 1, 2, 30, 511, 512, 513, 700 + c.rng.Intn(900), 1024, 1025, 2048 + c.rng.Intn(3000)}[c.rng.Intn(11)]
+		if i%12 >= 5 && i%12 <= 7 && i%24 < 12 && sc.g.proto >= 2 {
+			sc.sizeZero = true
+			size = []int{1, 2, 30, 600, 3000}[c.rng.Intn(5)]
+		}
 		sc.content = fillBytes(c.rng, size, c.rng.Intn(4))
 		cases[i] = sc
 	}
